@@ -502,3 +502,187 @@ def C14(tier, seed):
     }
     return run_symx_check('C14', tier, seed, 'harness/h_coll.cpp', cases, 900 if tier == 'quick' else 3300, tv, confirm, bounds,
                           witness_pick=lambda cs: [c for c in cs if c.startswith('n=4') and 'sym=all' in c][-6:])
+
+
+# ----------------------------------------------------------------------------- C08
+def _eval_form(s, model):
+    tot = fractions.Fraction(0)
+    for term in s.split('+'):
+        term = term.strip()
+        if not term:
+            continue
+        if '*' in term:
+            c, v = term.split('*')
+            tot += fractions.Fraction(c) * parse_q(model[v])
+        else:
+            tot += fractions.Fraction(term)
+    return tot
+
+
+def _side_lines(rec, model):
+    """r_mcb lines (and the common scale) for sides A, B (and H) of a relational case under `model`."""
+    sides = [('A', rec['algoA']), ('B', rec['algoB'])] + ([('H', rec['algoA'])] if 'H' in rec else [])
+    vals = {}
+    den = 1
+    for nm, _ in sides:
+        vals[nm] = [_eval_form(s, model) for s in rec[nm]['w']]
+        for v in vals[nm]:
+            den = den * v.denominator // math.gcd(den, v.denominator)
+    lines = {}
+    for nm, algo in sides:
+        ws = [int(v * den) for v in vals[nm]]
+        ln = 'algo=%s n=%s edges=%s weights=%s type=double' % (algo, rec[nm]['n'], rec[nm]['edges'], ','.join(map(str, ws)))
+        if nm == 'B' and rec.get('orderB'):
+            ln += ' order=' + rec['orderB']
+        lines[nm] = ln
+    return lines, den
+
+
+def rel_cases(tier, seed):
+    """Every case keeps the number of simultaneously symbolic weights within a budget (signed/fvs 5 quick, 6 thorough; iso 4 / 5)."""
+    cases = []
+    seqs = ['signed', 'fvs', 'iso']
+    graphs = []
+    if tier == 'quick':
+        for g in iso_classes(4):
+            if dim(4, g) >= 1:
+                graphs.append((4, g))
+    else:
+        for g in all_labelled_graphs(4):
+            if dim(4, g) >= 1:
+                graphs.append((4, g))
+    graphs += [(4, [(0, 1), (1, 2), (2, 3)]), (4, [(0, 1), (2, 3)]), (3, [(0, 1), (0, 2), (1, 2)]), (4, []), (0, [])]
+    r = rng(seed)
+
+    def budget(algo, m=0):
+        b = (4 if m <= 4 else 3) + (1 if tier == 'thorough' else 0)
+        if 'iso' in algo:
+            b -= 1
+        return b
+
+    for n, g in graphs:
+        m = len(g)
+        es = edges_str(g)
+
+        def sym_for(algo, reserve=0):
+            lim = budget(algo, m) - reserve
+            if m <= lim:
+                return 'all', m
+            k = max(1, min(m, lim))
+            return ','.join(map(str, sorted(r.sample(range(m), k)))), k
+        pairs = [('signed', 'fvs'), ('signed', 'iso'), ('fvs', 'iso')]
+        if tier == 'thorough':
+            pairs += [('fvs', 'signed'), ('iso', 'signed'), ('iso', 'fvs'), ('signed', 'signed_tbb'), ('fvs', 'fvs_tbb'), ('iso', 'iso_tbb'),
+                      ('signed_tbb', 'iso_tbb')]
+        for a, b in pairs:
+            cases.append('rel=pair a=%s b=%s n=%d edges=%s sym=%s' % (a, b, n, es, sym_for(a + b)[0]))
+        for algo in seqs:
+            s, _ = sym_for(algo)
+            base = 'algo=%s n=%d edges=%s sym=%s' % (algo, n, es, s)
+            perms = [list(p) for p in itertools.permutations(range(n))][1:]
+            if perms:
+                chosen = perms if (tier == 'thorough' and m <= 4 and algo != 'iso') else r.sample(perms, min(len(perms), 1 if tier == 'quick' else 4))
+                for p in chosen:
+                    cases.append('rel=perm %s perm=%s' % (base, ','.join(map(str, p))))
+            if m >= 2:
+                cases.append('rel=order %s order=%s' % (base, ','.join(map(str, reversed(range(m))))))
+                if tier == 'thorough':
+                    o = list(range(m))
+                    r.shuffle(o)
+                    cases.append('rel=order %s order=%s' % (base, ','.join(map(str, o))))
+            cases.append('rel=isolated ' + base)
+            # relations that add edges: symbolic additions when the budget allows, fixed weights otherwise
+            s2, k2 = sym_for(algo, reserve=2)
+            room = budget(algo, m) - k2
+            cases.append('rel=pendant algo=%s n=%d edges=%s sym=%s at=%d%s' % (algo, n, es, s2, r.randrange(n) if n else 0, '' if room >= 2 else ' addfixed=1'))
+            s3, k3 = sym_for(algo, reserve=3)
+            room = budget(algo, m) - k3
+            cases.append('rel=bridge algo=%s n=%d edges=%s sym=%s at=%d%s' % (algo, n, es, s3, r.randrange(n) if n else 0, '' if room >= 3 else ' addfixed=1'))
+            su, ku = sym_for(algo, reserve=2)
+            room = max(1, budget(algo, m) - ku)
+            cases.append('rel=union algo=%s n=%d edges=%s sym=%s n2=3 edges2=0-1,0-2,1-2 sym2=%s' % (
+                algo, n, es, su, 'all' if room >= 3 else ','.join(map(str, sorted(r.sample(range(3), min(room, 3)))))))
+            if tier == 'thorough':
+                cases.append('rel=union algo=%s n=%d edges=%s sym=%s n2=4 edges2=0-1,0-2,0-3,1-2,1-3 sym2=%s bridge=1 addfixed=1' % (
+                    algo, n, es, su, ','.join(map(str, sorted(r.sample(range(5), min(room, 2)))))))
+            if m:
+                ss, ks = sym_for(algo, reserve=1)
+                for ei in (range(m) if (tier == 'thorough' and m <= 4) else [r.randrange(m)]):
+                    cases.append('rel=subdivide algo=%s n=%d edges=%s sym=%s edge=%d' % (algo, n, es, ss, ei))
+            for j in ((1,) if tier == 'quick' else (1, 3)):
+                cases.append('rel=scale %s j=%d' % (base, j))
+    # larger tie-heavy slices: variants must agree
+    fams = [('K33', 2), ('grid3x3', 2), ('K5', 2)] if tier == 'quick' else \
+        [('K33', 3), ('grid3x3', 3), ('K5', 3), ('Q3', 2), ('petersen', 2), ('K6', 2), ('grid3x4', 2), ('wheel5', 3), ('prism', 3)]
+    for f, ns in fams:
+        n, es = family(f)
+        es = norm_edges(es)
+        symidx = ','.join(map(str, sorted(r.sample(range(len(es)), ns))))
+        for a, b in [('signed', 'fvs'), ('signed', 'iso'), ('fvs', 'iso')]:
+            cases.append('rel=pair a=%s b=%s n=%d edges=%s sym=%s fam=%s' % (a, b, n, edges_str(es), symidx, f))
+        p = list(range(n))
+        r.shuffle(p)
+        for algo in seqs:
+            cases.append('rel=perm algo=%s n=%d edges=%s sym=%s perm=%s fam=%s' % (algo, n, edges_str(es), symidx, ','.join(map(str, p)), f))
+            cases.append('rel=scale algo=%s n=%d edges=%s sym=%s j=3 fam=%s' % (algo, n, edges_str(es), symidx, f))
+    return cases
+
+
+def C08(tier, seed):
+    cases = rel_cases(tier, seed)
+
+    def rel_holds(rec, model, rbin):
+        lines, den = _side_lines(rec, model)
+        outs = {nm: run_replayer(rbin, [ln])[0] for nm, ln in lines.items()}
+        if any(o.get('crashed') or o['exception'] for o in outs.values()):
+            return False, lines, outs
+        lhs = fractions.Fraction(outs['B']['ret'])
+        rhs = int(rec['scale']) * fractions.Fraction(outs['A']['ret']) + (fractions.Fraction(outs['H']['ret']) if 'H' in outs else 0)
+        return lhs == rhs, lines, outs
+
+    def tv(leaves, rbin):
+        n = 0
+        for rec in leaves[:(40 if tier == 'quick' else 600)]:
+            lines, den = _side_lines(rec, rec['model'])
+            oa = run_replayer(rbin, [lines['A']])[0]
+            ob = run_replayer(rbin, [lines['B']])[0]
+            if oa.get('crashed') or ob.get('crashed'):
+                return n, 'real build crashed on %s' % rec['case']
+            if fractions.Fraction(oa['ret']) != parse_q(rec['retA']) * den or fractions.Fraction(ob['ret']) != parse_q(rec['retB']) * den:
+                return n, 'returned optimum differs on %s model %s: symbolic A=%s B=%s (x%d) real A=%s B=%s' % (
+                    rec['case'], rec['model'], rec['retA'], rec['retB'], den, oa['ret'], ob['ret'])
+            n += 1
+        return n, None
+
+    def confirm(agg, rbin, out):
+        items = agg.violated[:30]
+        if agg.crashes:
+            out.fault = 'crash in relational harness: %s' % json.dumps(agg.crashes[0])[:300]
+            return
+        for idx, (rec, obl) in enumerate(items):
+            holds, lines, outs = rel_holds(rec, obl.get('model') or rec['model'], rbin)
+            if holds:
+                out.fault = 'relational counterexample did not reproduce on the real build: %s' % rec['case']
+                return
+            key = '%s/%s/%s' % (rec['rel'], rec['algoA'] + '+' + rec['algoB'], rec['A']['edges'])
+            rp = os.path.join(cex_dir(), 'C08-replay-%d.json' % idx)
+            json.dump({'property': 'C08', 'replayer': 'replay/r_mcb.cpp (relational)', 'lines': lines, 'scale': rec['scale'], 'observed': outs,
+                       'key': key}, open(rp, 'w'), indent=1)
+            kf = finding_matches('C08', key)
+            if kf:
+                out.n_known += 1
+                out.known_lines.append('KNOWN-FINDING: property=C08 %s' % kf['text'])
+            else:
+                out.n_confirmed += 1
+                out.violation_lines.append('VIOLATION property=C08 replay=%s' % rp)
+    bounds = {
+        'functions_encoded': ['parmcb::mcb_sva_signed', 'mcb_sva_fvs_trees', 'mcb_sva_iso_trees', '(thorough) *_tbb variants under the scheduler shim'],
+        'bounds': 'two runs in one path over shared symbolic weights; graphs: every labelled 4-vertex graph with a cycle (m<=5 fully symbolic; K4 and '
+                  'iso m=5 as 3-symbolic slices in quick), some forests, the empty graph; relations: variant pairs, seeded (thorough: all) vertex '
+                  'permutations, reversed/seeded insertion orders, + isolated vertex, + pendant path, + bridge to a tree, disjoint union with a '
+                  'triangle (thorough: with K4-e, with a connecting bridge), subdivision of an edge, scaling by 2 and 8; 2/3-symbolic slices of '
+                  'K33, 3x3 grid, K5 (thorough: Q3, Petersen, K6, 3x4 grid, wheel, prism)',
+        'outside_bounds': 'graphs with hundreds of vertices (no symbolic run of that size is affordable; largest are the 12-vertex slices)',
+    }
+    return run_symx_check('C08', tier, seed, 'harness/h_rel.cpp', cases, 1200 if tier == 'quick' else 3400, tv, confirm, bounds,
+                          replayer='replay/r_mcb.cpp', witness_pick=lambda cs: [c for c in cs if 'sym=all' in c and 'n=4' in c][:8], keep_every=7)
